@@ -12,7 +12,7 @@ import (
 func init() {
 	register(&propDef{
 		ID:          "C02",
-		Explanation: "Decides four structural necessary conditions of 'generated Go compiles and renders what the template denotes', for ALL emission paths of the generator (GEM: every function of package generator abstracted to a tree of emissions; loops unrolled 0/1/2; paths rendered with typed placeholders and parsed with go/parser): R1 every path is syntactically valid Go; R2 every string-literal emission is a well-formed interpreted-string body (constants checked with strconv.Unquote, holes must come through escapeQuotes or be html-escaped parser names); R3 expressions owned by a guarded construct (if / else-if / for / switch / case / conditional attribute) are only emitted or collected after the guard's own expression was emitted in the same function; R4 the two void-element tables agree, the void early-return precedes children and close tag, Go comments emit nothing; R5 the literal-coalescing layer closes a pending literal before any Go text; R6 every emission path type-checks (go/types, in process) against the current templ and templ/runtime packages with its holes left as undefined placeholders — a misspelled or removed runtime function, a wrong argument count, an assignment count mismatch or a wrongly typed value in an emitted template is reported; R7 a control-flow writer that receives the node following its own node passes it to every child list it writes (if / else-if / else, for, switch cases), so the last inline child of whichever branch is taken keeps its separation from inline content after the statement; R8 in the spread-attribute renderer every case whose value carries a boolean (bool, *bool, func() bool, KeyValue[…, bool]) writes the attribute only under a condition that has that boolean as a conjunct; R9 the node dispatcher renders a node's trailing whitespace exactly under `inline-or-text(current) && inline-or-text(next)` (same classifier on both); R10 element writers emit open tag, attributes, '>', children and close tag in this order on every path; R11 no emitted `if <expr> {` / `for <expr> {` has an empty body (what the condition guards is emitted inside it). R12 every function of the generator and parser that descends into one of Then / Else / ElseIfs of a conditional node descends into all of them (collectors and emitters of the same node agree on which children exist); R13 the runtime output buffer hands every byte to its bufio.Writer and never writes to the underlying writer without flushing first, and R14 pooled buffers are flushed before they are put back and reset on acquisition or release — both are necessary for the bytes of one render to reach its writer in program order and unmixed with another render's. R15 every element in the block-element table (after which whitespace is dropped) is block-level or hidden in the HTML user-agent style sheet, or a listed exception. R16 (= C15.R10) lazy generation skips a template only when its Go file is strictly newer. R17 (= C13.R1) every emitted template body reads and clears the children slot before rendering, so a child block reaches exactly the component it was passed to. R18 (= C07.R6) the generator rewrites attribute lists only on a deep copy of the parsed tree (generating twice from one tree, as templ fmt does, gives the same program); R19 the functions reached by the generator's inline/block test read no layout flag (IndentChildren, IndentAttrs, Multiline); R20 the void / block table lookups fold the case of the element name when the parser's name alphabet admits upper-case letters. NOT decided: that the emitted constants spell the template's markup (only their order and well-formedness), argument passing, that `go build` accepts arbitrary user expressions. R21 doctype and text nodes go into the literal with Go escaping only (no second HTML escaping); R22 the body of a script template is never trimmed at its end (a trailing // comment would swallow the closing brace). R8 also: a type switch over spread-attribute values renders nothing in its default arm (an unsupported value is left out). R23 a string builder whose contents the generator emits inside a loop is reset after every emission (otherwise earlier declarations are emitted again). R24 a function that returns an updated copy of the attributes has its result used by the caller (an ignored result means the class rewrites never reach the emitted code). R25 the generator never takes Names[0] of a go/ast field (a grouped declaration `a, b string` is one field with two names).",
+		Explanation: "Decides four structural necessary conditions of 'generated Go compiles and renders what the template denotes', for ALL emission paths of the generator (GEM: every function of package generator abstracted to a tree of emissions; loops unrolled 0/1/2; paths rendered with typed placeholders and parsed with go/parser): R1 every path is syntactically valid Go; R2 every string-literal emission is a well-formed interpreted-string body (constants checked with strconv.Unquote, holes must come through escapeQuotes or be html-escaped parser names); R3 expressions owned by a guarded construct (if / else-if / for / switch / case / conditional attribute) are only emitted or collected after the guard's own expression was emitted in the same function; R4 the two void-element tables agree, the void early-return precedes children and close tag, Go comments emit nothing; R5 the literal-coalescing layer closes a pending literal before any Go text; R6 every emission path type-checks (go/types, in process) against the current templ and templ/runtime packages with its holes left as undefined placeholders — a misspelled or removed runtime function, a wrong argument count, an assignment count mismatch or a wrongly typed value in an emitted template is reported; R7 a control-flow writer that receives the node following its own node passes it to every child list it writes (if / else-if / else, for, switch cases), so the last inline child of whichever branch is taken keeps its separation from inline content after the statement; R8 in the spread-attribute renderer every case whose value carries a boolean (bool, *bool, func() bool, KeyValue[…, bool]) writes the attribute only under a condition that has that boolean as a conjunct; R9 the node dispatcher renders a node's trailing whitespace exactly under `inline-or-text(current) && inline-or-text(next)` (same classifier on both); R10 element writers emit open tag, attributes, '>', children and close tag in this order on every path; R11 no emitted `if <expr> {` / `for <expr> {` has an empty body (what the condition guards is emitted inside it). R12 every function of the generator and parser that descends into one of Then / Else / ElseIfs of a conditional node descends into all of them (collectors and emitters of the same node agree on which children exist); R13 the runtime output buffer hands every byte to its bufio.Writer and never writes to the underlying writer without flushing first, and R14 pooled buffers are flushed before they are put back and reset on acquisition or release — both are necessary for the bytes of one render to reach its writer in program order and unmixed with another render's. R15 every element in the block-element table (after which whitespace is dropped) is block-level or hidden in the HTML user-agent style sheet, or a listed exception. R16 (= C15.R10) lazy generation skips a template only when its Go file is strictly newer. R17 (= C13.R1) every emitted template body reads and clears the children slot before rendering, so a child block reaches exactly the component it was passed to. R18 (= C07.R6) the generator rewrites attribute lists only on a deep copy of the parsed tree (generating twice from one tree, as templ fmt does, gives the same program); R19 the functions reached by the generator's inline/block test read no layout flag (IndentChildren, IndentAttrs, Multiline); R20 the void / block table lookups fold the case of the element name when the parser's name alphabet admits upper-case letters. NOT decided: that the emitted constants spell the template's markup (only their order and well-formedness), argument passing, that `go build` accepts arbitrary user expressions. R21 doctype and text nodes go into the literal with Go escaping only (no second HTML escaping); R22 the body of a script template is never trimmed at its end (a trailing // comment would swallow the closing brace). R8 also: a type switch over spread-attribute values renders nothing in its default arm (an unsupported value is left out). R23 a string builder whose contents the generator emits inside a loop is reset after every emission (otherwise earlier declarations are emitted again). R24 a function that returns an updated copy of the attributes has its result used by the caller (an ignored result means the class rewrites never reach the emitted code). R25 the generator never takes Names[0] of a go/ast field (a grouped declaration `a, b string` is one field with two names). R26 the class processor records a name in its ordered list whatever flag is stored for it (the append may be confined to 'not seen yet', never to the flag): the output is made from the final flag of every listed name.",
 		Assumptions: []string{"go/parser accepts exactly syntactically valid Go", "placeholders stand for a user expression / identifier of the right syntactic category (searched, ≤5 categories per hole)"},
 		Trusted:     []string{"go/types", "go/parser", "x/tools go/packages", "strconv.Unquote"},
 		Run:         runC02,
@@ -25,6 +25,7 @@ func runC02(c *Ctx) {
 	flushedBuildersAreReset(c, "C02.R23", "generator", "parser/v2")
 	updatesToCopiesAreUsed(c, "C02.R24", "generator", "parser/v2", ".", "runtime")
 	everyNameOfAFieldIsUsed(c, "C02.R25")
+	recordedRegardlessOfValue(c, "C02.R26")
 	gTypeCheck(c, "C02.R6")
 	gLit(c, "C02.R2")
 	gGuard(c, "C02.R3")
